@@ -63,6 +63,22 @@ let dump_db (c : (n list * n list) list) =
 let snap_tok (w : (n * (n list * n list) list) list) =
   let l = List.sort (fun (a, _) (b, _) -> Z.compare (z_of_n a) (z_of_n b)) w in
   "S:" ^ String.concat ";" (List.map (fun (n, c) -> name_tok n ^ "=" ^ dump_db c) l)
+let pre_tok fk (w : (n * (n list * n list) list) list) =
+  let l = List.sort (fun (a, _) (b, _) -> Z.compare (z_of_n a) (z_of_n b)) w in
+  "Q:" ^ String.concat ";" (List.map (fun (n, c) ->
+    name_tok n ^ "=" ^ dump_db (List.filter (fun (k, _) -> k <> fk) c)) l)
+(* expected snapshot of a flush: the pre-flush user contents of the databases still open after it,
+   plus the clean mark under the flush-ID key *)
+let expected_snap fkh id (pre : (string * string) list) (post : (string * string) list) =
+  let mark = "00" ^ (if id = "-" then "" else id) in
+  let hk k = if k = "-" then "" else k in
+  List.map (fun (n, _) ->
+    let d = (match List.assoc_opt n pre with Some d -> d | None -> "?") in
+    let es = (if d = "" then [] else String.split_on_char ',' d) in
+    let es = List.map (fun e -> match String.index_opt e ':' with
+      | Some i -> (String.sub e 0 i, e) | None -> (e, e)) es in
+    let es = List.sort (fun (a, _) (b, _) -> compare (hk a) (hk b)) ((fkh, fkh ^ ":" ^ mark) :: es) in
+    (n, String.concat "," (List.map snd es))) post
 let parse_snap t : (string * string) list =
   let body = String.sub t 2 (String.length t - 2) in
   if body = "" then [] else
@@ -105,7 +121,7 @@ let eval inp obs =
   let og = split_on ";" obs in
   let sect name = (match List.find_opt (fun g -> match g with x :: _ -> x = name | [] -> false) og with
     | Some (_ :: t) -> t | _ -> []) in
-  let ilog = sect "LOG" and iverd = sect "V" and isnaps = sect "S" in
+  let ilog = sect "LOG" and iverd = sect "V" and isnaps = sect "S" and ipres = sect "Q" in
   (* flush segments of the implementation's log *)
   let segs = ref [] and cur = ref None in
   List.iter (fun t ->
@@ -126,6 +142,7 @@ let eval inp obs =
     else [ names (is_mark "00") ] in
   (* ---- the model *)
   let mlog_toks = ref [] in
+  let mpres = ref [] in
   let push t = mlog_toks := t :: !mlog_toks in
   let hop_of o = (match o with
     | ["O"; n] -> Some (HOpen (n_of_tok n))
@@ -150,6 +167,7 @@ let eval inp obs =
         | None -> ()
         | Some hp ->
           let before = List.length !st.rs_log in
+          (match hp with HFlush _ -> mpres := pre_tok fk !st.rs_spec.sp_dbs :: !mpres | _ -> ());
           st := run_step fk scale !st hp;
           let fresh = drop before !st.rs_log in
           (match hp with HFlush _ -> push "F" | _ -> ());
@@ -162,6 +180,7 @@ let eval inp obs =
         | None -> ()
         | Some hp ->
           let before = List.length !st.fr_log in
+          (match hp with HFlush _ -> mpres := pre_tok fk !st.fr_spec.sp_dbs :: !mpres | _ -> ());
           st := frun_step fk !st hp;
           let fresh = drop before !st.fr_log in
           (match hp with HFlush _ -> push "F" | _ -> ());
@@ -183,7 +202,8 @@ let eval inp obs =
     else if List.exists (fun p -> cres_tok (check_synced fk p) = it) (perms w) then it else canon) in
   let mverd_sorted = List.rev !mverd_sorted in
   let msnaps = List.map (fun r -> snap_tok r.r_snap) mrecs in
-  let model_obs = ("LOG" :: List.rev !mlog_toks) @ [";"; "V"] @ mverd @ [";"; "S"] @ msnaps @ [";"; "R1"] in
+  let mpres = List.rev !mpres in
+  let model_obs = ("LOG" :: List.rev !mlog_toks) @ [";"; "V"] @ mverd @ [";"; "S"] @ msnaps @ [";"; "Q"] @ mpres @ [";"; "R1"] in
   (* ---- the property on the implementation's data *)
   let idur = List.filter (fun t -> t <> "F" && t <> "f" && t <> "ferr") ilog in
   let spec_ok, why = (try
@@ -194,11 +214,24 @@ let eval inp obs =
                         else if t <> "F" && t <> "ferr" then incr cnt) ilog;
     let pos = List.rev !pos in
     if List.mem "ferr" ilog then false, "Flush returned an error"
-    else if List.length pos <> List.length flush_ids || List.length isnaps <> List.length pos then
+    else if List.length pos <> List.length flush_ids || List.length isnaps <> List.length pos
+            || List.length ipres <> List.length pos then
       false, "number of completed flushes / snapshots differs from the number of F operations"
     else begin
-      let flushes = List.mapi (fun i p -> (p, List.nth flush_ids i, parse_snap (List.nth isnaps i))) pos in
-      spec_check ~any_pos ilog_d iverd flushes
+      (* the contents a database "had when that flush completed" = what the producer showed the user just
+         before the flush (+ the clean mark); the read path after the flush must show the same *)
+      let fkh = h fk in
+      let bad = ref "" in
+      let flushes = List.mapi (fun i p ->
+        let id = List.nth flush_ids i in
+        let post = parse_snap (List.nth isnaps i) and pre = parse_snap (List.nth ipres i) in
+        let exp = expected_snap fkh id pre post in
+        if exp <> post && !bad = "" then
+          bad := Printf.sprintf "flush %d (id %s): contents read through the producer after the flush [%s] differ from the contents before it plus the clean mark [%s]"
+                   (i + 1) id (String.concat ";" (List.map (fun (n, d) -> n ^ "=" ^ d) post))
+                   (String.concat ";" (List.map (fun (n, d) -> n ^ "=" ^ d) exp));
+        (p, id, exp)) pos in
+      if !bad <> "" then false, !bad else spec_check ~any_pos ilog_d iverd flushes
     end
   with e -> false, "unparsable observation: " ^ Printexc.to_string e) in
   let m_ok, m_why =
